@@ -237,6 +237,57 @@ def check_tables(case, ctx):
             ctx.require(_eq(ctx.call(P.fringe_to_nm, j), nm), 'fringe_to_nm:table', 'fringe_to_nm(%d) != Fringe table %r' % (j, nm))
 
 
+
+# ---- the index / order arguments in the integer types callers actually hold ------------------------------------------
+def strat_types(tier):
+    def build(t):
+        typ = t
+        nmax = {'int': 400, 'np.int64': 400, 'np.int32': 400, '0d-array': 400, 'np.int16': 100, 'np.int8': 9}[typ]
+        return st.integers(0, nmax).flatmap(lambda n: st.fixed_dictionaries({
+            'type': st.just(typ), 'n': st.just(n), 'k': st.integers(0, n), 'j': st.integers(1, 10**6 if typ not in ('np.int16', 'np.int8') else 100)}))
+    return st.sampled_from(['int', 'np.int64', 'np.int32', '0d-array', 'np.int16', 'np.int8']).flatmap(build)
+
+
+def _typed(v, typ):
+    import numpy as np
+    if typ == 'int':
+        return int(v)
+    if typ == '0d-array':
+        return np.array(v, dtype=np.int64)
+    return getattr(np, typ[3:])(v)
+
+
+def check_types(case, ctx):
+    """the maps give the same answers whether indices / orders arrive as Python ints, numpy integer scalars of any width that
+    holds them, or 0-d arrays, and they leave the caller's objects unchanged."""
+    from prysm import polynomials as P
+    from prysm.polynomials.xy import xy_j_to_mn
+    typ, n, j = case['type'], case['n'], case['j']
+    m = -n + 2 * case['k']
+    ctx.nt(typ != 'int')
+    ctx.label('type:' + typ)
+    nn, mm = _typed(n, typ), _typed(m, typ)
+    jf = ctx.call(P.nm_to_fringe, nn, mm)
+    ctx.require(int(jf) >= 1 and _eq(ctx.call(P.fringe_to_nm, int(jf)), (n, m)), 'nm_to_fringe:' + typ,
+                'nm_to_fringe(%s(%d), %s(%d)) = %r, which fringe_to_nm maps to %r' % (typ, n, typ, m, jf, P.fringe_to_nm(int(jf)) if int(jf) >= 1 else None))
+    ja = ctx.call(P.nm_to_ansi_j, nn, mm)
+    ctx.require(2 * int(ja) == n * (n + 2) + m, 'nm_to_ansi_j:' + typ, 'nm_to_ansi_j(%s(%d), %s(%d)) = %r' % (typ, n, typ, m, ja))
+    ctx.require(int(nn) == n and int(mm) == m, 'inverse-maps:argument-modified', 'the caller\'s (n, m) objects were changed: now %r, %r' % (nn, mm))
+    if typ in ('np.int16', 'np.int8'):
+        # narrow integer orders are exercised on the (n,m) -> j maps only, in the range where n(n+2) itself fits the type;
+        # an index j held in a narrow type overflows in the unchanged code's own 8*j (numpy semantics of the caller's dtype)
+        return
+    for name, fn, ref in (('noll_to_nm', P.noll_to_nm, ref_noll), ('fringe_to_nm', P.fringe_to_nm, ref_fringe),
+                          ('ansi_j_to_nm', P.ansi_j_to_nm, ref_ansi), ('xy_j_to_mn', xy_j_to_mn, ref_xy)):
+        jj = j if name != 'xy_j_to_mn' else min(j, 20000)
+        jt = _typed(jj, typ)
+        got = ctx.call(fn, jt)
+        ctx.require(_eq(got, ref(jj)), name + ':' + typ, '%s(%s(%d)) = %r, reference %r' % (name, typ, jj, got, ref(jj)))
+        ctx.require(int(jt) == jj, name + ':argument-modified', '%s changed the caller\'s index object from %d to %r' % (name, jj, jt))
+        got2 = ctx.call(fn, jt)
+        ctx.require(_eq(got2, ref(jj)), name + ':second-lookup', 'looking the same index object up twice gives %r then %r' % (got, got2))
+
+
 CLAUSES = [
     EnumClause('noll_blocks', enum_blocks('noll', {'quick': 100000, 'thorough': 2000000}), check_block),
     EnumClause('fringe_blocks', enum_blocks('fringe', {'quick': 100000, 'thorough': 2000000}), check_block),
@@ -244,5 +295,6 @@ CLAUSES = [
     EnumClause('xy_blocks', enum_blocks('xy', {'quick': 20000, 'thorough': 200000}), check_block),
     EnumClause('inverse_rows', enum_inverse, check_inverse),
     EnumClause('published_tables', enum_xy_table, check_tables, shards={'quick': 2, 'thorough': 2}),
+    HypClause('argument_types', strat_types, check_types, examples={'quick': 600, 'thorough': 4000}, shards={'quick': 2, 'thorough': 8}),
     HypClause('targeted_large', strat_targeted, check_targeted, examples={'quick': 300, 'thorough': 1500}, shards={'quick': 4, 'thorough': 16}),
 ]
